@@ -20,6 +20,16 @@ struct Sys {
   bool tof;
 };
 
+// other data geometries for the re-use histories: N detectors per ring, R rings, tang tangential positions, ntof TOF bins
+inline Sys make_sys_geo(int N, int R, int tang, int ntof) {
+  Sys s;
+  s.tof = ntof > 1;
+  s.t = vh::make_tiny_system(N, R, tang, ntof, 2, 2, 3);
+  s.bins = vh::xm_all_bins(*s.t.proj_data_info);
+  s.vox = vh::xm_voxels(*s.t.image);
+  return s;
+}
+
 inline Sys make_sys(bool tof) {
   Sys s;
   s.tof = tof;
